@@ -12,5 +12,6 @@ CONSTANTS
   FullOptParams = 0
   FullOptKw = 0
   KindParams = 0
+  CtxParams = 0
 INVARIANT BrokenNoDupCheck
 CHECK_DEADLOCK FALSE
